@@ -743,6 +743,91 @@ def classify_dir(fails):
     return out
 
 
+# ------------------------------------------------------------------------------- part 1e: closed quote + unquoted tail
+
+# What the line looks like after accepting a quoted DIRECTORY completion and typing on: the quote is
+# closed somewhere in the directory part and the rest is typed bare: <q>dir/<q>f, <q>dir<q>/f, <q>di<q>r/f.
+TAIL_DIRS = ["ab", "a b"]
+TAIL_FILES = ["fi", "f i"]
+TAIL_FORMS = ("quote-after-slash", "quote-before-slash", "quote-inside-name")
+
+
+def tail_typed(style, form, d, f):
+    closer = _closer(style)
+    if form == "quote-after-slash":
+        return style + d + "/" + closer + f[0]
+    if form == "quote-before-slash":
+        return style + d + closer + "/" + f[0]
+    return style + d[:-1] + closer + d[-1] + "/" + f[0]
+
+
+def check_tail(item):
+    """Directory `d` holding file `f`; the typed word is a closed quoted prefix of the path followed by
+    an unquoted tail (8 quote styles x 3 places for the closing quote).  Full pipeline, splice with
+    the returned prefix_len, execute; oracle: exactly one argument that denotes d/f."""
+    w = _W
+    d, f = item
+    res = {"dir": d, "file": f, "admitted": 0, "no_completion": 0, "completions": 0, "execs": 0, "failing": 0, "fails": []}
+    dpath = os.path.join(w.cwd, d)
+    target = os.path.join(dpath, f)
+    os.mkdir(dpath)
+    with open(target, "w"):
+        pass
+    try:
+        for style in STYLES:
+            if not style:
+                continue
+            for form in TAIL_FORMS:
+                line = "rec " + tail_typed(style, form, d, f)
+                cursor = len(line)
+                ctx = w.completer.parse(line, cursor)
+                cmd = ctx.command if ctx is not None else None
+                if (cmd is None or cmd.arg_index != 1 or len(cmd.args) != 1 or cmd.args[0].value != "rec"
+                        or cmd.suffix or cmd.subcmd_opening or line[:cursor] != "rec " + cmd.raw_prefix):
+                    continue
+                res["admitted"] += 1
+                comps = w.completions(line, cursor)
+                if not comps:
+                    res["no_completion"] += 1
+                    continue
+                for text, plen in comps:
+                    res["completions"] += 1
+                    new = w.splice(line, cursor, text, plen)
+                    obs = w.execute(new, d)
+                    res["execs"] += 1
+                    ok = (isinstance(obs, list) and len(obs) == 1 and len(obs[0]) == 1
+                          and os.path.normpath(os.path.join(w.cwd, obs[0][0])) == target)
+                    if ok:
+                        res.setdefault("example", {"part": "roundtrip-tail", "dir": d, "file": f, "typed_line": line, "completion": text,
+                                                   "prefix_len": plen, "spliced_line": new, "argv_calls": _scrub(obs, w), "verdict": "ok"})
+                        continue
+                    res["failing"] += 1
+                    res["fails"].append({"dir": d, "file": f, "style": style, "form": form, "line": line, "cursor": cursor,
+                                         "completion": _scrub(text, w), "prefix_len": plen, "spliced": _scrub(new, w),
+                                         "observed": _scrub(obs, w), "sig": signature(obs, "\0", "file") or "value"})
+    finally:
+        shutil.rmtree(dpath, ignore_errors=True)
+        left = os.listdir(w.cwd)
+        if left:
+            raise common.ToolError(f"scratch cwd not empty after {item!r}: {left!r}")
+    return res
+
+
+def classify_tail(fails):
+    """key = roundtrip-tail:<quote style>:<where the quote closes>:<shape dir>/<shape file>:<class>, attributed to the
+    plainest layout (plain file, then plain directory) that fails the same way."""
+    table = {(f["style"], f["form"], f["dir"], f["file"], sig_class(f["sig"])) for f in fails}
+    out = []
+    for f in fails:
+        st, form, d, fl, sc = f["style"], f["form"], f["dir"], f["file"], sig_class(f["sig"])
+        if (st, form, d, "fi", sc) in table:
+            fl = "fi"
+        if (st, form, "ab", fl, sc) in table:
+            d = "ab"
+        out.append(("roundtrip-tail:%s:%s:%s/%s:%s" % (STYLE_NAMES.get(st, st), form, shape(d), shape(fl), sc), (d, fl), f))
+    return out
+
+
 # ------------------------------------------------------------------------------- part 1: keys
 
 
@@ -1177,6 +1262,31 @@ def run(ctx):
     if totd["completions"] * 2 < totd["admitted"]:
         raise common.ToolError(f"vacuous run: only {totd['completions']} completions for {totd['admitted']} admitted hostile-parent cases")
 
+    # ---- part 1e: closed quoted prefix + unquoted tail
+    titems = [(d, f) for d in TAIL_DIRS for f in TAIL_FILES]
+    rest = common.pmap(check_tail, titems, ctx.jobs, chunk=1, init=_init_worker, seed=ctx.seed)
+    tott = collections.Counter()
+    tfails = []
+    for r in rest:
+        for k in ("admitted", "no_completion", "completions", "execs", "failing"):
+            tott[k] += r[k]
+        tfails.extend(r["fails"])
+    per_tkey = collections.Counter()
+    for key, best, f in classify_tail(tfails):
+        per_tkey[key] += 1
+        if per_tkey[key] > 3:
+            continue
+        ctx.violation(
+            key=key,
+            clause="completed text is read back as exactly one argument that denotes the file (closed quote + typed tail)",
+            case={"part": "roundtrip-tail", "dir": f["dir"], "file": f["file"], "style": f["style"], "form": f["form"], "line": f["line"], "cursor": f["cursor"], "minimal": list(best)},
+            observed={"completion": f["completion"], "prefix_len": f["prefix_len"], "spliced_line": f["spliced"], "argv_calls": f["observed"]},
+            expected="one call whose single argument is <dir>/<file> (absolute or relative)",
+        )
+    ctx.log(f"part 1e: {len(titems)} layouts x {len(STYLES) - 1} quote styles x {len(TAIL_FORMS)} places of the closing quote: {dict(tott)}; {len(per_tkey)} keys")
+    if tott["completions"] == 0:
+        raise common.ToolError("vacuous run: no completion for any closed-quote + tail case")
+
     # ---- part 2
     p2len = ctx.pick(4, 5)
     items = _p2_items(p2len, "full")
@@ -1238,7 +1348,7 @@ def run(ctx):
         c2 = _P2.parse(text, cursor)
         ctx.sample({"part": "analyser", "text": text, "cursor": cursor, "context": repr(c2)[:300], "verdict": "ok" if analyse(text, cursor) is None else "violates"})
     ctx.coverage.update(
-        evaluations=tot["completions"] + totm["completions"] + totd["completions"] + t2["parses"] + t3["parses"],
+        evaluations=tot["completions"] + totm["completions"] + totd["completions"] + tott["completions"] + t2["parses"] + t3["parses"],
         distinct_nontrivial=tot["execs"] + totm["execs"] + t2["strings"] + t3["strings"],
         rule=(
             f"part 1: all {len(names)} names of length <= {maxlen} over {len(ALPHA1)} symbols (+{len(KEYWORD_NAMES)} keyword names) x {{file, dir}} x "
@@ -1249,6 +1359,7 @@ def run(ctx):
             f"{len(STYLES)} opening-quote styles x {{no closing quote, closing quote after the cursor}} x typed prefixes {MULTI_TYPED} x EVERY visiting order of the candidates (the real _quote_paths is handed the candidates as an ordered list); "
             f"part 1d: {len(ditems)} layouts (directory named a<h>b / <h>ab / ab<h>" + (" / a<h1><h2>b" if ctx.thorough else "") + f" for every hostile symbol h, holding one file) x routes {DIR_ROUTES} "
             "(typed `$D/f`, the plain letters of the directory + `/f` for subsequence matching, `~/f` with $HOME = the directory), bare typed word; "
+            f"part 1e: directories {TAIL_DIRS} x files {TAIL_FILES} x {len(STYLES) - 1} quote styles x closing quote {TAIL_FORMS} followed by an unquoted typed tail (<q>dir/<q>f, <q>dir<q>/f, <q>di<q>r/f), full pipeline; "
             f"part 2: all strings of length <= {p2len} over {len(ALPHA2)} symbols"
             + (f" and all strings of length 6 over {len(ALPHA2_REDUCED)} symbols" if ctx.thorough else "")
             + f" x every cursor position through CompletionContextParser.parse; part 3: all sequences of <= 3 symbols out of {len(ALPHA3)} ({len(_PREFIXES)} string prefixes x {len(_QUOTES)} quote kinds, the bare quotes doubling as closers, + 8 neighbours)"
@@ -1267,6 +1378,10 @@ def run(ctx):
         analyser_strings=t2["strings"],
         analyser_parses=t2["parses"],
         analyser_bad=sum(bad_counts.values()),
+        tail_cases_admitted=tott["admitted"],
+        tail_cases_without_completion=tott["no_completion"],
+        tail_completions_spliced=tott["completions"],
+        tail_failures=tott["failing"],
         parent_dir_layouts=len(ditems),
         parent_dir_cases_admitted=totd["admitted"],
         parent_dir_cases_without_completion=totd["no_completion"],
@@ -1333,6 +1448,18 @@ def replay(rec):
             for n in names:
                 os.unlink(os.path.join(w.cwd, n))
         return rc
+    if case.get("part") == "roundtrip-tail":
+        global STYLES, TAIL_FORMS
+        STYLES = ["", case["style"]]
+        TAIL_FORMS = (case["form"],)
+        r = check_tail((case["dir"], case["file"]))
+        print("layout  :", repr(case["dir"]) + "/" + repr(case["file"]), "line:", repr(case["line"]))
+        for f in r["fails"]:
+            print("completion:", repr(f["completion"]), "prefix_len:", f["prefix_len"], "-> line", repr(f["spliced"]))
+            print("  observed argv calls:", f["observed"])
+            print("  expected           : one call whose single argument denotes " + case["dir"] + "/" + case["file"])
+        print("verdict :", "VIOLATION" if r["fails"] else f"ok ({r['completions']} completions read back correctly)")
+        return 1 if r["fails"] else 0
     if case.get("part") == "roundtrip-dir":
         global DIR_ROUTES
         DIR_ROUTES = (case["route"],)
